@@ -372,6 +372,7 @@ fn sweep_scenario(idx: usize, full: bool) -> Scenario {
         n_clients: 1,
         initial: idx,
         stat_lies: 0,
+        clock: Some(1_790_380_800 + idx as u64 * 86_400 * 97),
         ops: vec![
             Op::Load {
                 client: 0,
@@ -565,6 +566,10 @@ fn cmd_run(args: &Args) -> i32 {
     let mut v0_bits: Vec<u64> = Vec::new();
     let mut combined: u64 = 0;
     let mut bypass = false;
+    let clock_ok = exec::clock_seam_works();
+    if !clock_ok {
+        println!("NOTE clock-seam-bypassed: Epoch::now() does not read the simulated clock; runs see the real one");
+    }
     let mut samples: Vec<Value> = Vec::new();
     let mut model_probes = 0u64;
     let mut diff_probes = 0u64;
@@ -905,6 +910,7 @@ fn cmd_run(args: &Args) -> i32 {
                         n_clients: 1,
                         initial: 0,
                         stat_lies: 0,
+                        clock: None,
                         ops: vec![],
                     }),
                 };
@@ -1013,6 +1019,7 @@ fn cmd_run(args: &Args) -> i32 {
             "samples": samples,
             "scope": "Decided by simulation: C06 sentence 1 / configuration clause (file-loaded provider == table of the opened file == built-in table, under injected reader/disk faults, replacements and concurrent loads). Sentences 2-3 (per-instant UTC<->TAI) are NOT decided by simulation: they are evaluated only at an enumerated set of probe instants (oracle O6: PRNG-free full sweep once per batch, light seeded form at every query, i.e. after whatever loads/faults/replacements the run performed).",
             "seam_bypassed": bypass,
+            "clock_seam_works": clock_ok,
             "runs_per_hour": if wall > 0.0 { (executed as f64 / wall * 3600.0) as u64 } else { 0 },
             "simulated_time": "not applicable: no timers, sleeps or deadlines in the code under simulation; the step budget is counted in read calls",
             "counters": Value::Object(cmap),
